@@ -69,6 +69,12 @@ func RunHarness(p *Program, h *Harness, cfg runCfg) (res *Result) {
 			x.assumeFns[strings.TrimSpace(f)] = true
 		}
 	}
+	if a := h.Item.Options["tailrec"]; a != "" {
+		x.tailrec = map[string]bool{}
+		for _, f := range strings.Split(a, ",") {
+			x.tailrec[strings.TrimSpace(f)] = true
+		}
+	}
 	if h.Item.Options["unroll"] != "" {
 		x.unroll = true
 		res.Bounded = true
@@ -131,7 +137,50 @@ func RunHarness(p *Program, h *Harness, cfg runCfg) (res *Result) {
 	}
 	q := c.Query(nil, negGoals, labels)
 	sr := Solve(q, cfg.scratch, h.Oblig, cfg.timeout)
-	if sr.Status == "unknown" && !h.Vacuity {
+	if sr.Status == "unknown" && len(negGoals) > 1 {
+		// split: one query per path / side obligation
+		type pr struct {
+			i  int
+			sr SolveResult
+		}
+		ch := make(chan pr, len(negGoals))
+		sem := make(chan struct{}, 4)
+		for i := range negGoals {
+			go func(i int) {
+				sem <- struct{}{}
+				defer func() { <-sem }()
+				qi := c.Query(nil, []*Term{negGoals[i]}, []string{labels[i]})
+				ch <- pr{i, Solve(qi, cfg.scratch, fmt.Sprintf("%s.part%d", h.Oblig, i), 2*cfg.timeout)}
+			}(i)
+		}
+		allUnsat := true
+		var satOne *pr
+		var total int64
+		for range negGoals {
+			r := <-ch
+			total += r.sr.Millis
+			switch r.sr.Status {
+			case "unsat":
+			case "sat":
+				allUnsat = false
+				if satOne == nil {
+					rr := r
+					satOne = &rr
+				}
+			default:
+				allUnsat = false
+			}
+		}
+		switch {
+		case satOne != nil:
+			sr = satOne.sr
+			sr.Output = strings.Replace(sr.Output, "(path!0 true)", fmt.Sprintf("(path!%d true)", satOne.i), 1)
+		case allUnsat:
+			sr = SolveResult{Status: "unsat", Solver: "split(" + sr.Solver + ")", Millis: sr.Millis + total}
+		default:
+			sr.Millis += total
+		}
+	} else if sr.Status == "unknown" && !h.Vacuity {
 		// retry once with four times the budget on every back end before giving up
 		sr2 := Solve(q, cfg.scratch, h.Oblig, 4*cfg.timeout)
 		sr2.Millis += sr.Millis
@@ -216,9 +265,10 @@ func main() {
 	writeLock := fs.Bool("write-lock", false, "rewrite the lock entries of this property from this run")
 	noEvidence := fs.Bool("no-evidence", false, "do not write the evidence file")
 	fs.Parse(os.Args[2:])
+	ownScratch := false
 	if *scratch == "" {
 		*scratch = fmt.Sprintf("/var/tmp/verif-%d", os.Getpid())
-		defer os.RemoveAll(*scratch)
+		ownScratch = true
 	}
 	var props map[string]bool
 	if *prop != "" {
@@ -289,6 +339,9 @@ func main() {
 	code := report(p, results, *prop, *tier, *verif, loadMs, time.Since(t0), *verbose, *writeLock, *noEvidence)
 	if b, err := json.Marshal(struct{}{}); err == nil {
 		_ = b
+	}
+	if ownScratch {
+		os.RemoveAll(*scratch)
 	}
 	os.Exit(code)
 }
